@@ -23,5 +23,5 @@ def extra(r):
 
 def run(v, tier, seed, replay):
     seqcheck.run(v, tier, seed, replay, "C05", ["C05"], tree_oracles=["no_panic", "tree", "exactly_once", "contexts", "closures"], knobs=knobs, extra_cases=extra,
-                 n_quick=(700, 100), n_thorough=(80000, 5000),
+                 n_quick=(2100, 300), n_thorough=(80000, 5000),
                  nontrivial=lambda lines, tr: any(l.split()[1] == "root" and l.endswith(" 0") for l in lines))
